@@ -20,6 +20,8 @@ RULE = ('case = rig forest (0..4 rigs, 1..4 members, nesting 0..3, members senso
         'stream outside the quantifier (double sources, a sensor in two rigs, empty rigs, empty timestamps, cyclic rigs, '
         'chains of depth 4..12, explicit recover inputs) on which only model/code agreement is required. '
         'Non-trivial = at least one rig is posed at some timestamp; distinct = distinct case content.')
+NOTES = ['copy.deepcopy(Trajectories) rebuilds the copy through __setitem__, which drops empty timestamps (repo fix for C07): the '
+         'copying variants therefore differ from the in-place ones on inputs that hold an empty timestamp; modelled (deepcopy_traj)']
 TRUSTED = ['float rounding of PoseTransform.compose / inverse (numpy, numpy-quaternion, numba): the model is exact over Q and '
            'the comparison allows 1e-9 relative to the pose magnitude',
            'copy.deepcopy of Trajectories (copying variants): observed through argument snapshots only']
@@ -395,7 +397,8 @@ def _malformed(rng, k):
         c['rigs'] = [['R', [['A', P()], ['s3', P()]]], ['A', [['s1', P()], ['s2', P()]]]]
         c['traj'] = [[1, [['R', P()]]]]
         devs = ['R', 'A', 's1', 's2', 's3', 'free']
-        c['rec_in'] = [[t, [[d, P()] for d in rng.sample(devs, rng.randint(1, 5))]] for t in rng.sample(range(9), rng.randint(1, 3))]
+        c['rec_in'] = [[t, [[d, P()] for d in rng.sample(devs, rng.randint(0 if rng.random() < 0.3 else 1, 5))]]
+                       for t in rng.sample(range(9), rng.randint(1, 3))]   # sometimes with an empty timestamp
         c['masters'] = rng.choice([None, ['s1'], ['s2', 's3'], ['A'], ['s1', 'A'], []])
     else:  # order: which sensor wins depends on the sorted order of the names
         names = rng.sample(['a', 'B', 'Z', 'b', '0', '_', 'ab', 'aa', 'é'], 3)
@@ -408,7 +411,7 @@ def _malformed(rng, k):
 
 def gen_cases(rng, tier):
     cases = []
-    n_main = 230 if tier == 'quick' else 2400
+    n_main = 230 if tier == 'quick' else 2000
     for i in range(n_main):
         n_rigs = rng.choice([0, 1, 1, 2, 2, 3, 3, 4, 4])
         max_nest = rng.choice([1, 2, 3, 3])
@@ -420,7 +423,7 @@ def gen_cases(rng, tier):
         mk = rng.choice(['none', 'none', 'valid', 'valid', 'junk'])
         masters = _gen_masters(rng, rigs, traj, mk)
         cases.append({'rigs': rigs, 'traj': traj, 'masters': masters, 'rec_in': None, 'cls': cls + '/m=' + mk + ('/full' if full else '')})
-    n_bad = 45 if tier == 'quick' else 450
+    n_bad = 45 if tier == 'quick' else 360
     for k in range(n_bad):
         cases.append(_malformed(rng, k))
     return cases
@@ -436,9 +439,12 @@ def _build(rigs_l, traj_l):
             rigs[r, d] = kapture.PoseTransform(r=list(g[:4]), t=list(g[4:]))
     traj = kapture.Trajectories()
     for t, m in traj_l:
-        traj[int(t)] = {}
+        # dict.setdefault is not overridden by Trajectories: this is how the code itself creates a timestamp, and the
+        # only public way to hold an empty one (rigs_recover leaves such timestamps behind); `traj[t] = {}` drops it
+        traj.setdefault(int(t), {})
         for d, p in m:
             traj[int(t), d] = kapture.PoseTransform(r=list(p[:4]), t=list(p[4:]))
+    assert [k for k in traj.keys()] == [int(t) for t, _ in traj_l], 'harness could not build the requested trajectories'
     return rigs, traj
 
 
@@ -688,11 +694,13 @@ TECHNIQUE = ('Coq proofs about an executable Gallina model of the job-list itera
              'model with the four real functions by vm_compute')
 LEVEL_TEXT = ('Theorems in coq/Props/C06.v hold for every rig forest of nesting depth <= 10 and every trajectories: after '
               'rigs_remove no rig id remains, entries of non-rig devices are untouched, each sensor below a posed rig gets '
-              'compose(path poses leaf->root ++ [rig pose]), nothing else appears, no exception; recover after remove gives '
-              'back (==) every top-level rig pose and leaves every posed sensor at its world pose (masters unspecified: any '
-              'depth; masters: top-level rigs with a directly posed master member, which is all of depth 1); a depth-11 chain '
-              'keeps a rig id (the bound is real). The model is tied to the code by running the four real functions on generated '
-              'forests / trajectories and comparing key sets exactly and poses to 1e-9 inside Coq.')
-LEVEL_NOTE = ('partial: nested rigs (depth > 1) with a master list are proved only for top-level rigs having a posed master '
-              'member; float rounding of compose/inverse is outside the model (1e-9 tolerance); deepcopy is observed by '
-              'snapshots only. Trusted: Coq kernel + vm_compute, harness encoders.')
+              'compose(path poses leaf->root ++ [rig pose]), nothing else appears, no exception; recover after remove (masters '
+              'unspecified, any depth) gives back (==) every top-level rig pose and leaves every posed sensor at its world pose, '
+              'with no world hypothesis when only top-level rigs and free sensors are posed; with a master list that names a live member '
+              'of every rig with something posed below it (any depth): every such top-level rig is recovered, no sensor moves; KeyError unreachable; a depth-11 '
+              'chain keeps a rig id (the bound is real). The model is tied to the code by running the four real functions on '
+              'generated forests / trajectories and comparing key sets exactly and poses to 1e-9 inside Coq.')
+LEVEL_NOTE = ('not modelled: float rounding of compose/inverse (1e-9 tolerance of the property), numba/numpy internals; deepcopy is '
+              'modelled (drops empty timestamps) and observed by snapshots; the executable (code-arithmetic) instance and the '
+              'specification instance of the model differ by the 1e-14 unit-band branch of the rotation matrix (C05). '
+              'Trusted: Coq kernel + vm_compute, harness encoders.')
